@@ -271,6 +271,14 @@ func (tr *FnTr) instr(in ssa.Instruction) {
 		tr.abstractValue(x, "range iterator")
 	case *ssa.Next:
 		tr.abstractValue(x, "iterator next")
+		if r, ok := x.Iter.(*ssa.Range); ok && !x.IsString {
+			if mt, ok := r.X.Type().Underlying().(*types.Map); ok {
+				// tuple (ok, key, value)
+				v := tr.env[x]
+				off := 1 + sizeOf(mt.Key())
+				tr.assumeMapVal(r.X, mt.Elem(), v.L[off:off+sizeOf(mt.Elem())], v.L[0])
+			}
+		}
 	case *ssa.MapUpdate:
 		tr.note("map update")
 	case *ssa.Send:
@@ -308,6 +316,32 @@ func (tr *FnTr) note(what string) {
 }
 
 // abstractValue binds an instruction's result to fresh, typed, otherwise unconstrained leaves.
+// assumeMapVal: values found in a package-level map that carries a `mapval` clause satisfy
+// the declared predicate (an assumption about the code that fills the map, listed as such).
+func (tr *FnTr) assumeMapVal(m ssa.Value, elem types.Type, leaves []*Term, present *Term) {
+	ld, ok := m.(*ssa.UnOp)
+	if !ok || ld.Op != token.MUL {
+		return
+	}
+	g, ok := ld.X.(*ssa.Global)
+	if !ok || g.Pkg == nil {
+		return
+	}
+	mv, ok := tr.eng.mapvals[g.Pkg.Pkg.Path()+"."+g.Name()]
+	if !ok {
+		return
+	}
+	sp := tr.eng.pkgs[mv.Pkg]
+	if sp == nil {
+		return
+	}
+	ctx := &SpecCtx{tr: tr, st: tr.st, old: tr.top.entry, pkg: sp}
+	ctx.bound = map[string]SV{"v": {T: elem, L: leaves}}
+	ctx.guard = tr.st.Reach
+	tr.vc.Assume(Implies(And(tr.st.Reach, present), ctx.fact(mv.C.E)))
+	tr.vc.Assumed = appendUniq(tr.vc.Assumed, "assumed invariant of the values of map "+shortPkg(mv.Pkg)+"."+mv.Name+": "+mv.C.Src)
+}
+
 func (tr *FnTr) abstractValue(x ssa.Value, why string) {
 	tr.note(why)
 	tr.env[x] = tr.freshVal(tr.vname(x), x.Type(), nil)
@@ -414,6 +448,15 @@ func (tr *FnTr) lookup(x *ssa.Lookup) {
 	// map lookup: result is a typed but otherwise unconstrained value
 	tr.note("map lookup")
 	tr.env[x] = tr.freshVal(tr.vname(x), x.Type(), tr.st.Alloc)
+	if mt, ok := x.X.Type().Underlying().(*types.Map); ok {
+		v := tr.env[x]
+		n := sizeOf(mt.Elem())
+		if x.CommaOk {
+			tr.assumeMapVal(x.X, mt.Elem(), v.L[:n], v.L[n])
+		} else if _, isPtr := mt.Elem().Underlying().(*types.Pointer); isPtr {
+			tr.assumeMapVal(x.X, mt.Elem(), v.L[:n], Ne(v.L[0], Int(0)))
+		}
+	}
 }
 
 func (tr *FnTr) slice(x *ssa.Slice) {
